@@ -95,7 +95,8 @@ Inductive outcome :=
 | EBlueprintDoesNotExist
 | EInvalidChildObjectCreation
 | EInvalidActorStateHandle
-| EOuterObjectDoesNotExist.
+| EOuterObjectDoesNotExist
+| ENotAKeyValueStore.
 
 Definition outcome_eqb (a b : outcome) : bool :=
   match a, b with
@@ -109,7 +110,8 @@ Definition outcome_eqb (a b : outcome) : bool :=
   | ENoPackageAddress, ENoPackageAddress | EBlueprintDoesNotExist, EBlueprintDoesNotExist
   | EInvalidChildObjectCreation, EInvalidChildObjectCreation
   | EInvalidActorStateHandle, EInvalidActorStateHandle
-  | EOuterObjectDoesNotExist, EOuterObjectDoesNotExist => true
+  | EOuterObjectDoesNotExist, EOuterObjectDoesNotExist
+  | ENotAKeyValueStore, ENotAKeyValueStore => true
   | _, _ => false
   end.
 
@@ -228,6 +230,17 @@ Definition resolve_state_handle (h : heap) (a : actor) (handle : N) : outcome + 
                  end
              end
     end.
+
+(* ---------------------------------------------------------------------------------------------- *)
+(* key_value_store_open_entry: key-value stores are not objects and have no blueprint; the system *)
+(* layer only checks that the node IS a key-value store — the actor is not consulted at all        *)
+(* ---------------------------------------------------------------------------------------------- *)
+Definition kv_open_check (h : heap) (a : actor) (n : N) : outcome :=
+  match lookup h n with
+  | None => ENodeNotVisible
+  | Some TKVStore => Granted
+  | Some _ => ENotAKeyValueStore
+  end.
 
 (* ---------------------------------------------------------------------------------------------- *)
 (* histories: the node table under new_object / globalize / drop                                   *)
